@@ -99,3 +99,27 @@ def gen_metrics():
     names = sorted(names)          # dir() order
     body = STR_HDR + "Definition metric_methods : list string :=\n  [" + ";\n   ".join(coq_str(n) for n in names) + "].\n"
     write("metrics", body)
+
+
+@register("uvl")
+def gen_uvl():
+    tree = parse(f"{REPO_PKG}/transformations/uvl_writer.py")
+
+    def resolve(v):
+        # ASTOperation.XOR.value
+        if isinstance(v, ast.Attribute) and v.attr == "value" and isinstance(v.value, ast.Attribute) \
+                and isinstance(v.value.value, ast.Name) and v.value.value.id == "ASTOperation":
+            return v.value.attr
+        return None
+    pairs = dict_astop_to_str(find_assign(tree, "UVL_OPERATORS"), resolve)
+    kw = find_assign(tree, "UVL_KEYWORDS")
+    if not (isinstance(kw, ast.Call) and kw.args and isinstance(kw.args[0], ast.Set)):
+        raise SystemExit("gen_tables: UVL_KEYWORDS is not frozenset({...})")
+    words = []
+    for e in kw.args[0].elts:
+        if not (isinstance(e, ast.Constant) and isinstance(e.value, str)):
+            raise SystemExit("gen_tables: UVL_KEYWORDS element is not a string literal")
+        words.append(e.value)
+    body = STR_HDR + table_fn("uvl_operator", pairs, None)
+    body += "Definition uvl_keywords : list string :=\n  [" + "; ".join(coq_str(w) for w in sorted(words)) + "].\n"
+    write("uvl", body)
